@@ -12,7 +12,7 @@ ITEM_HARNESS = {
     'vlq::encode_vlq': ['vlq_encode'], 'vlq::generate_vlq_segment': ['vlq_encode'], 'encoder::encode_vlq_diff': ['vlq_encode', 'roundtrip'],
     'vlq::parse_vlq_segment_into': ['vlq_decode'], 'vlq::parse_vlq_segment': ['vlq_decode'], 'vlq::B64': ['vlq_decode'], 'vlq::B64_CHARS': ['vlq_encode'],
     'utils::greatest_lower_bound': ['lookup', 'hermes_scope', 'index_flatten'],
-    'types::SourceMap::lookup_token': ['lookup'], 'types::SourceMap::get_token': ['lookup', 'ordering'], 'types::TokenIter::next': ['lookup', 'ordering'],
+    'types::TokenIter::seek': ['lookup'], 'types::SourceMap::lookup_token': ['lookup'], 'types::SourceMap::get_token': ['lookup', 'ordering'], 'types::TokenIter::next': ['lookup', 'ordering'],
     'types::Token::get_src_col': ['lookup'], 'types::SourceMap::tokens': ['lookup'],
     'types::SourceMap::new': ['ordering', 'lookup'], 'builder::SourceMapBuilder::into_sourcemap': ['ordering', 'builder_model'],
     'builder::SourceMapBuilder::add_with_id': ['ordering', 'builder_model'], 'builder::SourceMapBuilder::add_raw': ['ordering'], 'builder::SourceMapBuilder::add': ['ordering', 'builder_model'],
